@@ -716,3 +716,117 @@ def parse_mir_text(text):
             if op:
                 cur[3].append((op,) + tuple(_parse_operand(x) for x in _split_ops(args)))
     return funcs, protos, imports, {}
+
+
+# ------------------------------------------------------------------ executable rewrite shapes
+SHAPE_OPS0 = ["add", "adds", "sub", "subs", "or", "ors", "xor", "xors", "and", "ands", "mul", "muls", "lsh", "lshs",
+              "rsh", "rshs", "ursh", "urshs"]
+SHAPE_OPS1 = SHAPE_OPS0 + ["div", "divs", "udiv", "udivs", "mod", "mods", "umod", "umods"]
+
+
+def gen_shape_program(rng, name, kf_shapes=False):
+    """entry `name_e0 (p buf, a0..a3, x0, x1)`: a sequence of small snippets, each one of the shapes
+    simplify_func rewrites (shortcut rows and near misses in both operand positions, bt/bf of
+    constants, branch over jump, branch/jump to next, two branches to one place, jump chains,
+    adjacent constant allocas whose blocks are written at both ends and read back), executed and
+    folded into the result — so a wrong rewrite changes what the program computes"""
+    r = rng
+    P = Prog(name)
+    en = f"{name}_e0"
+    ins = [("mov", "acc", 0), ("mov", "v0", "a0"), ("xor", "v1", "a1", 0x5bd1e995), ("add", "v2", "a2", "a3"),
+           ("or", "v3", "a3", 1), ("mov", "t", 0)]
+    nl = [0]
+    feat = P.stats
+
+    def lab():
+        nl[0] += 1
+        return f"{en}_L{nl[0]}"
+
+    def stat(k):
+        feat[k] = feat.get(k, 0) + 1
+
+    def fold(reg, ext=None):
+        if ext:
+            ins.append((ext, reg, reg))
+        ins.extend([("xor", "acc", "acc", reg), ("mul", "acc", "acc", 1000003)])
+    vs = ["v0", "v1", "v2", "v3"]
+    for _ in range(6 + r.below(10)):
+        k = r.below(12)
+        x, y = r.choice(vs), r.choice(vs)
+        if k <= 2:       # shortcut rows, near misses, swapped operand position
+            c = r.choice([0, 1, 0, 1, 2, -1])
+            op = r.choice(SHAPE_OPS1 if c not in (0,) else SHAPE_OPS0)
+            if op.startswith(("lsh", "rsh", "ursh")) and c < 0:
+                c = 1
+            d = r.choice(["t", x])
+            if r.chance(1, 4) and not op.startswith(("div", "udiv", "mod", "umod", "lsh", "rsh", "ursh")):
+                ins.append((op, d, c, x))      # constant first: `0 - x` is not `x - 0`
+                stat("shortcut_const_first")
+            else:
+                ins.append((op, d, x, c))
+                stat(f"shortcut_{c}")
+            fold(d, "ext32" if op.endswith("s") else None)
+        elif k == 3:     # bt/bf of a constant
+            op, c = r.choice(["bt", "bf", "bts", "bfs"]), r.choice([0, 1, 2, -1, 1 << 32])
+            l1 = lab()
+            ins += [("mov", "t", 11), (op, l1, c), ("mov", "t", 22), ("label", l1)]
+            fold("t")
+            stat("bt_const")
+        elif k in (4, 5):     # BCond L; JMP L2; L: ... L2:
+            op = r.choice(sorted(BRANCH2) + sorted(BRANCH1))
+            l1, l2, lx = lab(), lab(), lab()
+            br = (op, l1, x, y) if op in BRANCH2 else (op, l1, x)
+            extra = [("label", lx)] if r.chance(1, 3) else []
+            ins += [("mov", "t", 1), br, ("jmp", l2)] + extra + [("label", l1), ("add", "t", "t", 5), ("label", l2), ("add", "t", "t", 16)]
+            if extra:
+                ins += [("bf", lx, 1)]
+            fold("t")
+            stat("br_over_jmp")
+        elif k == 6:     # branch / jump to the next instruction, over labels
+            op = r.choice(sorted(BRANCH2) + ["jmp"])
+            l1, l0 = lab(), lab()
+            br = (op, l1, x, y) if op in BRANCH2 else (op, l1)
+            ins += [("mov", "t", 3), br, ("label", l0), ("label", l1), ("add", "t", "t", x), ("bf", l0, 1)]
+            fold("t")
+            stat("jump_to_next")
+        elif k == 7:     # BR L1; JMP L2 with L1 and L2 at the same place
+            op = r.choice(sorted(BRANCH2))
+            l1, l2 = lab(), lab()
+            labs = [("label", l1), ("label", l2)] if r.chance(1, 2) else [("label", l2), ("label", l1)]
+            ins += [("mov", "t", 4), (op, l1, x, y), ("jmp", l2), ("add", "t", "t", 100)] + labs + [("add", "t", "t", y)]
+            fold("t")
+            stat("two_branches_one_place")
+        elif k == 8:     # jump chain (threading)
+            ls = [lab() for _ in range(2 + r.below(3))]
+            lend = lab()
+            op = r.choice(sorted(BRANCH2))
+            ins += [("mov", "t", 7), (op, ls[0], x, y), ("add", "t", "t", 1), ("jmp", lend)]
+            for j, l in enumerate(ls):
+                ins += [("label", l)] + ([("jmp", ls[j + 1])] if j + 1 < len(ls) else [("add", "t", "t", 64)])
+            ins += [("label", lend)]
+            fold("t")
+            stat("jump_chain")
+        elif k in (9, 10):    # adjacent constant allocas: write both ends of every block, read back
+            n = 2 + r.below(4)
+            sizes = [r.choice([1, 2, 3, 4, 5, 8, 9, 12, 16, 17, 24, 33, 40]) for _ in range(n)]
+            regs = [f"p{j}" for j in range(n)]
+            for rg, sz in zip(regs, sizes):
+                ins.append(("alloca", rg, sz))
+            for j, (rg, sz) in enumerate(zip(regs, sizes)):
+                ins.append(("mov", ("mem", "u8", 0, rg, None, 1), 0x10 + j))
+                ins.append(("mov", ("mem", "u8", sz - 1, rg, None, 1), 0x80 + j))
+            for rg, sz in zip(regs, sizes):
+                ins += [("mov", "t", ("mem", "u8", 0, rg, None, 1))]
+                fold("t")
+                ins += [("mov", "t", ("mem", "u8", sz - 1, rg, None, 1))]
+                fold("t")
+            stat("alloca_list")
+        else:            # mem-to-mem move and arithmetic with memory destination in the buffer
+            o1, o2 = 8 * r.below(50), 8 * r.below(50)
+            ins += [("mov", ("mem", "i64", o1, "buf", None, 1), x), ("mov", ("mem", r.choice(["i32", "u16", "i64"]), o2, "buf", None, 1), ("mem", "i64", o1, "buf", None, 1)),
+                    ("add", ("mem", "i64", o1, "buf", None, 1), ("mem", "i64", o1, "buf", None, 1), 0)]
+            stat("mem_mem")
+    ins += [("ret", "acc")]
+    locs = ["acc", "v0", "v1", "v2", "v3", "t"] + [f"p{j}" for j in range(6)]
+    P.funcs.append((en, "i64, p:buf, i64:a0, i64:a1, i64:a2, i64:a3, d:x0, d:x1", [f"i64:{x}" for x in locs], ins))
+    return P, [en]
